@@ -73,7 +73,7 @@ for pid in sorted(props):
         'level_claimed': {'category': 'proof', 'text': text + f' ({n} kernel-checked theorems' + (f' + {nt} translator-tie theorems' if nt else '') + ' listed in lean/obligations.json)',
                           'design_ref': 'DESIGN.md section ' + ref},
         'level_note': 'Trusted: Lean 4.33 kernel (axioms propext, Classical.choice, Quot.sound only); the hand-written model, tied to '
-                      '/repo by the differential correspondence and direct oracle run by this check' + ('; its offset / count / guard arithmetic is also tied to the source text by definitions regenerated from it on every run (harness/sgzv/translate.py, itself validated each run by evaluating every generated definition against Python's evaluation of the source expression) and the tie theorems of lean/Sgz/Tie' if nt else '') + '; harness generators, symbolic '
+                      '/repo by the differential correspondence and direct oracle run by this check' + ('; its offset / count / guard arithmetic is also tied to the source text by definitions regenerated from it on every run (harness/sgzv/translate.py, itself validated each run by evaluating every generated definition against the evaluation of the source expression by Python) and the tie theorems of lean/Sgz/Tie' if nt else '') + '; harness generators, symbolic '
                       'codec and spec codec; assumptions A1-A5 of DESIGN.md section 7 (zfpy cellwise coding, segyio/pyvds/pyzgy, CPython '
                       'queue/hashlib, binary64, OS prefix semantics).',
         'technique': 'machine-checked proof in Lean 4 (theorems over a hand-written executable model, kernel-checked, axioms audited '
